@@ -27,7 +27,7 @@ TEXT = {   # line kind -> text after the margin ({i} = statement number); string
     "xd": "   mid", "xod": "  a'''b", "xhd": "  # not a comment", "xbd": "", "xbsd": "  tail \\",
     "zd": "      u2\"\"\"", "zcd": "  u2\"\"\" + 'x#y'", "zmd": "  u2\"\"\"  # c '''", "zod": "  u2\"\"\" + '''r1",
     "q2": "   q'",
-    "k3d": "      \"\"\"y1", "kbs": "   'q' + " + BS, "kc3": "   'q'  # c '''", "o3sb": "v{i} = '''t1 " + BS,
+    "k3d": "      \"\"\"y1", "kbs": "   'q' + " + BS, "kc3": "   'q'  # c '''", "kc": "   'q'  # plain note", "o3sb": "v{i} = '''t1 " + BS,
     "zbss": "  t2''' + " + BS, "zbsd": "  u2\"\"\" + " + BS,
     # runs of backslashes at the end of a physical line (BS = one backslash character)
     "osq3": "v{i} = 'C:" + BS * 2 + "d" + BS * 3, "odq": "v{i} = \"p" + BS, "odq3": "v{i} = \"C:" + BS * 2 + "d" + BS * 3,
